@@ -86,6 +86,32 @@ func runC12(r *simkit.Run) {
 	w.chain.Recovered = func(call string, e any) { r.Fail("abci-panic", call, "%s panicked: %v", call, e) }
 	changes := 0
 	w.onDeliver = func(ti *txInfo, resp abcitypes.ResponseDeliverTx, h int64) {
+		// which check-ins take effect is part of "the set the application intends": a keyper's
+		// first check-in always does, a later one (key change) exactly when the check-in update
+		// fork is active at that block
+		if ti != nil && ti.Kind == "checkin" && ti.ChainOK && ti.Decodes && ti.Class == "" {
+			member := false
+			for _, cf := range ref.configs {
+				for _, k := range cf.Keypers {
+					if k == ti.Sender {
+						member = true
+					}
+				}
+			}
+			_, again := ref.identity[ti.Sender]
+			if member {
+				want := !again || w.forkActive(h)
+				if got := resp.Code == 0; got != want {
+					r.Fail("check-in-effect-differs-from-fork-rule", "delivertx", "h=%d check-in of %s (already checked in: %t, fork active at this height: %t) answered with code %d", h, ti.Sender.Hex(), again, w.forkActive(h), resp.Code)
+				}
+				if again && want {
+					r.Probe("key-change-after-fork")
+				}
+				if again && w.forkActive(h) && !w.forkActive(h-1) {
+					r.Probe("key-change-in-the-fork-block")
+				}
+			}
+		}
 		for _, ev := range resp.Events {
 			switch ev.Type {
 			case evtype.BatchConfig:
